@@ -376,7 +376,9 @@ def sso_case(draw):
     # (cos i = -1); phys: lower bound = perigee 150 km above the surface when such solutions exist
     return dict(e=e, u=draw(fu(0.0, 1.0)), phys=draw(st.integers(0, 9)) < 7, dt=draw(fu(3600.0, 20 * 86400.0)),
                 raan=draw(fu(0, TWO_PI - 1e-9)), argp=draw(fu(0, TWO_PI - 1e-9)), M=draw(fu(0, TWO_PI - 1e-9)),
-                past=draw(detours()), num=draw(st.sampled_from(["float", "float", "numpy", "int_a"])))
+                past=draw(detours()), num=draw(st.sampled_from(["float", "float", "numpy", "int_a"])),
+                # the scale the date asked of the J2 propagator is written in (same instant)
+                label=draw(st.sampled_from(["UTC", "UTC", "TT", "TT", "TAI", "GPS"])))
 
 
 def check_sso(case):
@@ -420,7 +422,10 @@ def check_sso(case):
         past = dict(past, mode="set_a")      # a circular orbit has no cartesian detour back to exactly e = 0
     orb = with_past(past, [a, e, i, case["raan"], case["argp"], case["M"]], d0, "EME2000", Earth.mu,
                     propagator="J2", kep_form="keplerian_mean")
-    end = orb.propagate(d0 + timedelta(seconds=case["dt"]))
+    target = d0 + timedelta(seconds=case["dt"])
+    if case.get("label", "UTC") != "UTC":
+        target = target.change_scale(case["label"])
+    end = orb.propagate(target)
     el = tb.cart2elements(np.asarray(end.base, float), Earth.mu)
     drift = tb.angdiff(el["raan"], case["raan"]) / case["dt"]
     # conditioning of the node read back from a cartesian state: eps / sin i, over the drifted angle
